@@ -4,6 +4,7 @@ mod modfam;
 mod lowfam;
 mod lowgen;
 mod iterfam;
+mod compfam;
 
 fn main() {
     common::install_panic_hook();
@@ -17,6 +18,7 @@ fn main() {
         "lower" => lowfam::main(&args[2..]),
         "lower-gen" => lowgen::main(&args[2..]),
         "iter" => iterfam::main(&args[2..]),
+        "comp" => compfam::main(&args[2..]),
         f => {
             eprintln!("unknown family {}", f);
             std::process::exit(2);
